@@ -23,6 +23,9 @@ CHECKS = {
  'C09': dict(level='exploration', ref='3/C09', technique='TLA+ law (Laws!RoundTripLaw) judged by TLC on recorded render/parse round trips (trace validation)',
    text='Round-trip records (x, y=render(parse x), z, HTML and definitions of x and y) for the 652 corpus examples x normalize_whitespace are judged by TLC; failing corpus examples that the property sets aside are listed individually in known_findings.json.',
    note='Trusted: exact string equality of HtmlRenderer output as "identical HTML"; TLC.'),
+ 'C11': dict(level='model_checking', ref='3/C11', technique='TLA+ state machine of the process-wide parser configuration (Registry.tla) explored by TLC; every transition replayed into the real library with per-step state comparison and fresh-interpreter output comparison (spec -> code)',
+   text='TLC enumerates all histories up to length 3/4 over enter/exit/render/parse/failing-parse, all transitions modulo model state up to length 5/7 and long simulated histories, checking AfterExitDefaults, CleanAtRest and HistoryFree on the model; each exported history is executed on the real library, the module-level token lists are compared with the model and probe outputs are compared with fresh interpreters at quiescent points.',
+   note='Trusted: harness/c11.py replay driver and projections of module-level state; fresh interpreters (one subprocess per probe x renderer). Inside open contexts list differences are drift, not violations.'),
  'C12': dict(level='model_checking', ref='3/C12', technique='TLA+ model of the BFS walker (Traverse.tla) checked exhaustively by TLC and replayed into utils.traverse; TreeShape.tla predicates judged by TLC on dumps of real parses',
    text='Traverse.tla is explored over all trees of <= 4/5 nodes x filters x depth limits x include_source and refines the property-tier ExpectedYields; each case is replayed on a real token tree. Shape, traversal and AST-mirror laws are judged by TLC on dumps of real parses under four token sets (sampled inputs).',
    note='Trusted: the dump of the object graph in harness/c12.py, the child-kind table in TreeShape.tla (taken from the class docstrings), TLC.'),
